@@ -51,7 +51,7 @@ func viewKind(f *ssa.Function) int {
 		return 0
 	}
 	if strings.HasSuffix(funcPkgPath(f), "/internal/unsafe") {
-		switch f.Name() {
+		switch core.FuncName(f) {
 		case "Bytes2Str":
 			return 1
 		case "Str2Bytes":
@@ -262,7 +262,7 @@ func (e *aliasEnv) flowResult(c ssa.CallInstruction, flow func(ssa.Value)) {
 func externalResultMayAlias(f *ssa.Function) bool {
 	pk := funcPkgPath(f)
 	if pk == "bytes" || pk == "strings" {
-		switch f.Name() {
+		switch core.FuncName(f) {
 		case "TrimSpace", "Trim", "TrimLeft", "TrimRight", "TrimPrefix", "TrimSuffix", "TrimFunc", "TrimLeftFunc", "TrimRightFunc", "Fields", "Split", "SplitN":
 			return true
 		}
@@ -709,7 +709,7 @@ func R16(p *core.Prog) *core.Result {
 					r.Ok(".VIEW-LOOKUP-ONLY", pos, fkey+": zero-copy string view is only looked at / consumed")
 				} else {
 					sort.Strings(bad)
-					r.Fail(".VIEW-LOOKUP-ONLY", fmt.Sprintf("%s|%s#%d", fkey, sc.Name(), n), pos, fmt.Sprintf("%s: a zero-copy string view of a transient []byte (%s) %s: the stored value changes when the buffer is reused", fkey, core.FuncKey(sc), bad[0]), strings.Join(bad, "; "))
+					r.Fail(".VIEW-LOOKUP-ONLY", fmt.Sprintf("%s|%s#%d", fkey, core.FuncName(sc), n), pos, fmt.Sprintf("%s: a zero-copy string view of a transient []byte (%s) %s: the stored value changes when the buffer is reused", fkey, core.FuncKey(sc), bad[0]), strings.Join(bad, "; "))
 				}
 			}
 		}
@@ -719,7 +719,7 @@ func R16(p *core.Prog) *core.Result {
 	// (c) REF-COPY: OnStringRef / OnKeyRef keep nothing of their []byte argument
 	refs := 0
 	for _, f := range p.ModFuncs() {
-		if f.Signature.Recv() == nil || (f.Name() != "OnStringRef" && f.Name() != "OnKeyRef") {
+		if f.Signature.Recv() == nil || (core.FuncName(f) != "OnStringRef" && core.FuncName(f) != "OnKeyRef") {
 			continue
 		}
 		for i, prm := range f.Params {
@@ -760,7 +760,7 @@ func R16(p *core.Prog) *core.Result {
 				if !isByteSlice(prm.Type()) || i == 0 {
 					continue
 				}
-				if f.Name() == "stepKind" && prm.Name() == "kind" {
+				if core.FuncName(f) == "stepKind" && prm.Name() == "kind" {
 					continue
 				}
 				chunks++
@@ -800,7 +800,7 @@ func R16(p *core.Prog) *core.Result {
 				if bad == "" {
 					r.Ok(".STR-VIEW-READONLY", p.Pos(c.Pos()), fkey+": []byte view of string memory is only read")
 				} else {
-					r.Fail(".STR-VIEW-READONLY", fkey+"|"+sc.Name(), p.Pos(c.Pos()), fkey+": a []byte view of immutable string memory "+bad, "")
+					r.Fail(".STR-VIEW-READONLY", fkey+"|"+core.FuncName(sc), p.Pos(c.Pos()), fkey+": a []byte view of immutable string memory "+bad, "")
 				}
 			}
 		}
